@@ -33,7 +33,7 @@ Section Proofs.
     fired (snd (drive g w)) = fired w /\ cancelled (snd (drive g w)) = cancelled w /\
     match fst (drive g w) with Suspended d _ => ~ In d (fired w) | Finished _ => True end.
   Proof.
-    induction g as [v|e|d k IH|v k IH|t g IHg|g IHg k IH]; intros w; cbn [Model.drive].
+    induction g as [v|e|d k IH|v k IH|t g IHg|g IHg k IH|lvl g IHg]; intros w; cbn [Model.drive].
     - cbn. auto.
     - cbn. auto.
     - destruct (mem d (fired w)) eqn:E; [apply (IH _ (consume d w))|]. cbn. apply mem_false in E. auto.
@@ -44,6 +44,7 @@ Section Proofs.
       + destruct (IH r w1) as (B1 & B2 & B3). rewrite B1, B2, A1, A2. repeat split; try reflexivity.
         destruct (fst (Model.drive assign canc (k r) w1)); [exact I|]. rewrite <- A1. exact B3.
       + cbn. auto.
+    - apply (IHg (say (CancelNow lvl) w)).
   Qed.
 
   Lemma drive_WF g w : (forall d, In d (cancelled w) -> In d (fired w)) -> WF (drive g w).
@@ -91,7 +92,7 @@ Section Proofs.
 
   Lemma drive_sync g : forall w, agrees w -> sync_of (drive g w) = sync out g (consumed w) (own (seen w)).
   Proof.
-    induction g as [v|e|d k IH|v k IH|t g IHg|g IHg k IH]; intros w Ha; cbn [Model.drive Model.sync].
+    induction g as [v|e|d k IH|v k IH|t g IHg|g IHg k IH|lvl g IHg]; intros w Ha; cbn [Model.drive Model.sync].
     - reflexivity.
     - reflexivity.
     - destruct (mem d (fired w)) eqn:Ef.
@@ -105,6 +106,7 @@ Section Proofs.
       rewrite <- IHg. destruct st as [r|d k'].
       + unfold sync_of at 2. cbn [fst snd]. apply IH. exact Ha1.
       + unfold sync_of. cbn [fst snd Model.sync]. reflexivity.
+    - rewrite IHg by exact Ha. reflexivity.
   Qed.
 
   (** one step, read backwards: if the world after the step agrees with [c], so did the world before, and the
